@@ -4,6 +4,18 @@ use std::collections::BTreeMap;
 use std::path::{Path, PathBuf};
 use std::time::Instant;
 
+static MINIMISE: std::sync::atomic::AtomicBool = std::sync::atomic::AtomicBool::new(true);
+
+/// Phase 1 of a check only detects violations; minimisation (hundreds of re-executions each) is
+/// done in phase 2 for the first few violating runs only, so that a tree with many violations
+/// does not make the check slow.
+pub fn set_minimise(on: bool) {
+    MINIMISE.store(on, std::sync::atomic::Ordering::SeqCst);
+}
+pub fn minimise_on() -> bool {
+    MINIMISE.load(std::sync::atomic::Ordering::SeqCst)
+}
+
 pub fn verif_dir() -> PathBuf {
     std::env::var("VERIF_DIR")
         .map(PathBuf::from)
